@@ -21,16 +21,16 @@ CHECKS = {
          "Structure bytes for 4 parent kinds x pointer/value x full/abbreviated x constructed/decoded/non-canonical parents are compared with the RFC 9338 reference; real-key countersignatures must survive changes of the parent's unprotected headers and must not survive any change of protected bytes, payload, signature, external data, nor replay as message signature or as the other countersignature form; unsigned/payload-less/unsupported parents must be refused.",
          "trusted: refcose CountersignStructure (pinned by three cose-wg example structures), stdlib crypto; both sign_protected layouts of CounterSignature0 tolerated", "DESIGN.md section 4 C10"),
  "C11": ("exploration", "runtime monitor: SignMessage Sign/Verify/Marshal/Unmarshal results vs reference conjunction per index computed from the wire bytes; positional spy verifiers; failing spy signers",
-         "For n = 1..6 signers with mixed real keys every subset of corrupted and of emptied signatures and every verifier arrangement (transpositions, rotation, missing, surplus, wrong key per index) is enumerated, constructed and decoded; library verdict must equal the reference verdict in both directions; spy verifiers must each see their own signer's Sig_structure; zero/empty signatures can be neither encoded nor decoded.",
+         "For n = 1..6 signers with mixed real keys every subset of corrupted and of emptied signatures and every verifier arrangement (transpositions, rotation, missing, surplus, wrong key per index) is enumerated, constructed and decoded, and for 18 sizes n = 7..100 every single position is corrupted, emptied, given a wrong key, a refusing and a crashing verifier; library verdict must equal the reference verdict in both directions; spy verifiers must each see their own signer's Sig_structure; zero/empty signatures can be neither encoded nor decoded.",
          "trusted: refcose/refcrypto reference verdict; signers are well-behaved (error or non-empty signature)", "DESIGN.md section 4 C11"),
  "C20": ("fault_enumeration", "fault injection through the public API (fault-injecting Signer/Verifier/io.Reader implementations) + inspection of return values, message state and emitted bytes after every fault vector",
-         "Every assignment of {ok, error, error-with-bytes, empty signature} to each key call of all signing entry points (5^n vectors for COSE_Sign n<=4), of {ok, ErrVerification, other error} to each verifier call, and the 7 real built-in signers under failing/short/one-byte entropy readers are enumerated; an error must be returned, no bytes returned, nothing stored in the failing slot, nothing half-signed serialisable, no empty signature emitted, verifier errors propagated.",
+         "Every assignment of {ok, error, error-with-bytes, empty signature (nil / zero-length), Temporary()/Timeout() error, wrapped deadline error, EOF with partial bytes} to each key call of all signing entry points (8^n vectors for COSE_Sign n<=4), of {ok, ErrVerification, other error, panic} to each verifier call (plain and digest-capable verifiers), the 7 real built-in signers under failing/short/one-byte entropy readers and over misbehaving opaque crypto.Signer keys, and signing of already signed objects are enumerated; an error must be returned, no bytes returned, nothing stored in the failing slot, nothing half-signed serialisable, no empty signature emitted, verifier errors propagated.",
          "trusted: refcbor parse of emitted bytes; Go 1.23 stdlib consults the supplied entropy reader (measured: the monitor records reader calls)", "DESIGN.md section 4 C20"),
  "C05": ("exploration", "runtime monitor: accept/refuse result of the 7 decoders on structure-aware mutants; one-directional differential oracle accepted => well-formed per an independent reference grammar; cross-kind refusal",
          "Valid encodings of all shapes (reference encoder, all encoder choices, nested countersignatures) receive single and double structural faults at every kind of CBOR tree position, targeted splices (IV across buckets, crit, null/[]/[null] countersignatures, duplicate keys re-spelt with another width, trailing bytes inside the protected bstr) and byte havoc; every mutant the library accepts must satisfy the reference grammar; no decoder may accept another kind's valid encoding.",
          "trusted: refcbor/refcose WellFormed (appendix A.1/A.2), deliberately no stricter than the property text: tag 55799 is transparent, duplicate detection excludes NaN keys, the stand-alone unprotected-bucket decoder is judged with tags looked through", "DESIGN.md section 4 C05"),
  "C06": ("exploration", "runtime monitor: liveness of isolated child processes (recover around each call, cursor file, stall watchdog with solo re-confirmation) over hostile inputs to all 9 decoding entry points and their follow-up operations",
-         "About 250k seeded inputs (structural/byte mutants of valid messages, the COSE_Key mutation grid, random bytes, regression inputs) go to every decoding entry point in child processes; every accepted value is re-encoded, verified, countersigned, its nested countersignatures exercised, keys converted and used. Recovered panics, runtime fatal errors and confirmed stalls are violations; the watchdog alone never decides.",
+         "About 550k seeded inputs (structural/byte mutants of valid messages, the COSE_Key mutation grid, label x value grids, media-type-shaped texts, every 1- and 2-byte input, random bytes, regression inputs; nil receivers) go to every decoding entry point in child processes; every accepted value is re-encoded, verified, countersigned, its nested countersignatures exercised, keys converted and used. Recovered panics, runtime fatal errors and confirmed stalls are violations; the watchdog alone never decides.",
          "trusted: Go runtime crash reporting; a stall counts only if it repeats alone for 120 s", "DESIGN.md section 4 C06"),
  "C07": ("exploration", "runtime monitor: accept + verify results of the library on messages produced and signed by an independent reference implementation (reference encoder choices, reference Sig_structure / Countersign_structure, stdlib crypto)",
          "Conforming Sign1/Untagged/COSE_Sign/Signature/Countersignature messages with nested countersignatures (single/list, depth <= 3) are written by refcbor with every encoder choice a peer may make and signed over those wire bytes; the library must decode, verify every signature and nested countersignature from the decoded value, and the decoded plain header values must match the reference tree.",
@@ -51,13 +51,13 @@ CHECKS = {
          "ECDSA keys on the three curves with forced boundary classes (x, y, d with 1-2 (3 in thorough) leading zero bytes found by scalar-multiplication search, extreme d, the x = 0 points) and Ed25519 keys, with and without kid/key_ops/base IV/extra parameters, go through NewKeyFrom* -> MarshalCBOR -> UnmarshalCBOR -> PrivateKey/PublicKey/Signer/Verifier; keys must be Equal, serialised coordinates exactly field-sized, signatures valid under the counterpart verifier and the stdlib.",
          "trusted: crypto/elliptic scalar multiplication, ecdsa/ed25519 Equal and Verify, refcbor", "DESIGN.md section 4 C14"),
  "C15": ("exploration", "runtime monitor: one-directional oracle accepted => key rules (reference, on the wire tree), re-encoding fixed-point oracle, and Signer()/Verifier() gate predicate evaluated against wire facts and hand-built values",
-         "The complete wire grid kty x crv x alg x key_ops x presence/length class of x, y, d (1.27 M keys built from real points), structural/byte mutants of valid keys, and the grid of hand-built Key values: every accepted key must satisfy the consistency rules and re-encode to a canonical fixed point; Signer()/Verifier() may succeed only with the needed material, with key_ops (when present) permitting the operation, for asymmetric supported keys, and always for the algorithm the curve fixes.",
+         "The complete wire grid kty x crv x alg x key_ops x presence/length class of x, y, d (about 1.7 M keys built from real points, incl. text algorithms and Brainpool / unassigned curves), structural/byte mutants of valid keys, and the grid of hand-built Key values: every accepted key must satisfy the consistency rules and re-encode to a canonical fixed point; Signer()/Verifier() may succeed only with the needed material, with key_ops (when present) permitting the operation, for asymmetric supported keys, and always for the algorithm the curve fixes.",
          "trusted: refcose KeyRules (appendix A.6); tags are looked through (the key decoder is tag-tolerant and the property is silent on tags)", "DESIGN.md section 4 C15"),
  "C16": ("exploration", "runtime monitor: signer output compared with an independent fixed-width encoder for stub-chosen ASN.1 (r,s) and for native signatures; verifier verdicts on manufactured signatures against the oracle 'exactly 2n bytes holding an (r,s) that crypto/ecdsa accepts'",
          "Generic path: all byte lengths of r and s (top bit set/clear) on the three curves, including DER encodings that are exactly 2n long; native path: thousands of real signatures incl. measured leading-zero cases; verifier: reference signatures with chosen nonces (0/1/2 leading zero bytes in r and/or s, s in {1, 255, n-1, n/2}) accepted as-is and refused with ErrVerification in DER / stripped / extended / truncated / swapped / out-of-range forms and at every length 0..2n+4.",
          "trusted: crypto/ecdsa.Verify as definition of validity; refcrypto nonce-controlled signer (self-tested against ecdsa.Verify)", "DESIGN.md section 4 C16"),
  "C17": ("exploration", "runtime monitor: NewSigner/NewVerifier outcomes, error identities and reported algorithms against a reference decision table; 4-way Sign/SignDigest x Verify/VerifyDigest equivalence and cross-hash refusal with shared signers under 16 concurrent workers",
-         "The complete matrix of 31 algorithm ids x 40 key kinds (RSA 1024/2047/2048/3072/4096, four curves, invalid points, Ed25519, foreign crypto.Signer types, wrong Go types) is enumerated for both constructors; for every RSA/ECDSA algorithm x key, signatures from both signing entry points must verify through both verification entry points and the stdlib, and under no other hash.",
+         "The complete matrix of 31 algorithm ids x about 60 key kinds (RSA 1024/2047/2048/2049/2055/3072/4096 and public exponents 3..2^31-1, four curves, invalid points, Ed25519, foreign crypto.Signer types, wrong Go types) is enumerated for both constructors; for every RSA/ECDSA algorithm x key, signatures from both signing entry points must verify through both verification entry points and the stdlib, and under no other hash.",
          "trusted: reference decision table written from the property text; stdlib verification", "DESIGN.md section 4 C17"),
  "C18": ("exploration", "Go race detector (child binary built with -race, GORACE halt_on_error=0, reports de-duplicated by top frames) over a 32-goroutine stress workload on shared objects + comparison of every concurrent result with the sequential one + deep-hash snapshot monitor around every read-path call",
          "Sequential half: for about 250 shared objects of every kind/algorithm (constructed with three alg spellings, and decoded) the deep hash of message, headers, buffers, external data and verifier must be identical before and after every read-path operation. Concurrent half: the same objects are hammered by 32 goroutines released by a barrier (about 50k operations, about 39k measured as overlapping on the same object) and shared signers sign distinct messages; no race report, no runtime abort, no result different from sequential execution.",
